@@ -178,4 +178,38 @@ def vmpFullPipeline (P : PrimeSet) (n : Nat) (aFlat : List Poly) (m : Hal.PMat) 
       (limbOffset * m.colsOut) resLen
   (List.range resLen).map (fun r => idftLimb P n ((lane 0).getD r []) ((lane 1).getD r []) ((lane 2).getD r []) ((lane 3).getD r []))
 
+/-! ### compositions of DFT-domain operations -/
+
+open Hal (zeroP negMul sumPolys polyAdd polySub) in
+/-- how a DFT-domain limb was produced: zero fill, `vec_znx_dft_apply` of a coefficient limb, a one-row `bbc` product with a
+prepared polynomial (`svp_apply_dft_to_dft`), lazy add / sub / negate — nested to any depth -/
+inductive DExpr where
+  | zero : DExpr
+  | dft (a : Poly) : DExpr
+  | svp (p : Poly) (e : DExpr) : DExpr
+  | add (x y : DExpr) : DExpr
+  | sub (x y : DExpr) : DExpr
+  | neg (x : DExpr) : DExpr
+
+open Hal (zeroP negMul sumPolys polyAdd polySub) in
+/-- the polynomial the HAL specification assigns -/
+def DExpr.spec (n : Nat) : DExpr → Poly
+  | .zero => zeroP n
+  | .dft a => a
+  | .svp p e => sumPolys n [negMul (e.spec n) p]
+  | .add x y => polyAdd (x.spec n) (y.spec n)
+  | .sub x y => polySub (x.spec n) (y.spec n)
+  | .neg x => polySub (zeroP n) (x.spec n)
+
+/-- the `u64` lane of prime `k` the back end stores -/
+def DExpr.lane (P : PrimeSet) (k n : Nat) (avx : Bool) : DExpr → List Nat
+  | .zero => List.replicate n 0
+  | .dft a => realNtt P n k (a.map (fun x => bFromU64K (P.qs.getD k 1) (asU64 x)))
+  | .svp p e => bbcSlotsK (P.qs.getD k 1) (bbcH P) n
+      [((e.lane P k n avx).map u32Pair, vmpPrepareLaneK (P.qs.getD k 1) (realNtt P n k) p)]
+  | .add x y => List.zipWith (if avx then addBbbAvxK (P.qs.getD k 1) else addBbbK (P.qs.getD k 1)) (x.lane P k n avx) (y.lane P k n avx)
+  | .sub x y => List.zipWith (if avx then subBbbAvxK (P.qs.getD k 1) else subBbbK (P.qs.getD k 1)) (x.lane P k n avx) (y.lane P k n avx)
+  | .neg x => (x.lane P k n avx).map (if avx then negBAvxK (P.qs.getD k 1) else negBK (P.qs.getD k 1))
+
+
 end Ntt120
